@@ -100,7 +100,7 @@ def main(run):
     r = tie.rng_for(run, "c14")
 
     # ---------------------------------------------------------------- exchanges
-    n_ex = 160 if quick else 4000
+    n_ex = 150 if quick else 4000
     cases = []          # (exchange or None, line)
     corpus = vlib.read_corpus("C14")
     for ln in corpus:
@@ -215,7 +215,7 @@ def main(run):
     run.cov["different_context"] = {"deliveries": len(other), "failures": n_other_bad}
 
     # ---------------------------------------------------------------- bit flips and truncations
-    budget = 450_000 if quick else 12_000_000     # bits+truncations delivered to libcoap
+    budget = 300_000 if quick else 12_000_000     # bits+truncations delivered to libcoap
     jobs = []
     used = 0
     for j in sorted(tamper_jobs, key=lambda j: len(j[2])):
